@@ -59,6 +59,15 @@ def rule_r1_r2(rep, program: Program, prop=PROP, ids=("R1", "R2")):
     arith: dict = {}  # arithmetic locals (e.g. a named time step)
     step_call = None
     ret = None
+    # a try whose handlers only convert one exception type into another (each handler ends in `raise`) does not
+    # change the normal path: its body is analysed in place
+    flat = []
+    for st in body:
+        if isinstance(st, ast.Try) and not st.finalbody and all(h.body and isinstance(h.body[-1], ast.Raise) for h in st.handlers):
+            flat += list(st.body) + list(st.orelse)
+        else:
+            flat.append(st)
+    body = flat
     for st in body:
         if isinstance(st, ast.If):
             # guard clauses may only raise
@@ -297,3 +306,6 @@ def run(rep, program: Program, tier: str) -> None:
     from . import c07
 
     rep.isolate(c07.rule_r5, rep, program, prop=PROP, rule="R6")
+    # "the input state object is never modified": step() works on state.copy() and the flows update the copy in place,
+    # so the copy must own its variable arrays (and its cache dict) for every kind of state (shared with C09-R3)
+    rep.isolate(c09.rule_r3, rep, program, prop=PROP, rule="R7")
